@@ -34,7 +34,7 @@ def req(ctx, i, kind):
 def run(L, rep, tier, seed):
     S = Session(L, rep, seed)
     rep.assumptions += ['handlers are never scheduled unless the scenario performs their action; the connection thread is a logical thread that parks on the reader hand-over']
-    kmax = 3 if tier == 'quick' else 5
+    kmax = 3 if tier == 'quick' else 4     # pipelines of 5 (first thorough tier): 63 min before small bodies in pieces were added, not finished in 90 min after
 
     def h(ctx):
         scen = ctx.choose(2, 'scenario')
@@ -53,7 +53,7 @@ def run(L, rep, tier, seed):
             bodies.append(b)
         # the bytes may arrive in any segmentation: a small body that comes in pieces is still read ahead (buffered), it must not
         # turn into a body the application has to read before the successor is delivered
-        seg = 'choose' if (scen == 0 and any(kd in (3, 1024) for kd in kinds) and ctx.choose(2, 'segmented') == 1) else False
+        seg = 'choose' if (scen == 0 and k <= 3 and any(kd in (3, 1024) for kd in kinds) and ctx.choose(2, 'segmented') == 1) else False
         cv = Conv(S, ctx, data, end='eof', short_reads=seg)
         sc = {'kind': 'pipeline', 'bodies': [str(x) for x in kinds], 'blocker': p, 'segmented': bool(seg)}
         ctx.event('witness', 'all-small' if scen == 0 else 'blocker')
